@@ -231,6 +231,27 @@ def mon_C03(rng, budget, tier):
             if got != want:
                 mon.fail("scores equal ranks negated (same model object, ranks=v then scores=v)", case,
                          "scores=v gives %s, ranks=-v gives %s" % (str(got)[:300], str(want)[:300]))
+        # a caller keeps ITS rank (score) vector and passes the same list object again: same game, same vector, same result;
+        # and the vector still says what the caller wrote into it
+        if i % 3 == 0 and not mon.full:
+            vals, e = gen.encode_order(rng, order)
+            sel = "ranks" if i % 2 else "scores"
+            m = make_model(kind, st)
+            case = {"kind": kind, "st": st, "nums": nums, "order": order, "enc": e, "vals": vals, "sel": sel,
+                    "sequence": ["L = [...]", "rate(%s=L)" % sel, "rate(%s=L) with the same list object" % sel]}
+            mon.case(case, order != sorted(order))
+            L = to_python(("L", vals if sel == "ranks" else [gen.neg_val(v) for v in vals]))
+            keep = [(type(x), repr(x)) for x in L]
+            try:
+                r1 = [[(hx(p.mu), hx(p.sigma)) for p in t] for t in m.rate(to_python(teams_val(kind, nums)), **{sel: L})]
+                r2 = [[(hx(p.mu), hx(p.sigma)) for p in t] for t in m.rate(to_python(teams_val(kind, nums)), **{sel: L})]
+            except Exception as ex:  # noqa: BLE001
+                mon.fail("relabelling raised", case, "%s: %s" % (type(ex).__name__, ex))
+                continue
+            if [(type(x), repr(x)) for x in L] != keep:
+                mon.fail("the caller's %s vector after the call" % sel, case, "the list passed as %s= now reads %r" % (sel, L))
+            elif r1 != r2:
+                mon.fail("same vector object, same game, second call", case, "first call %s, second call %s" % (str(r1)[:300], str(r2)[:300]))
     api.pool(False)
     return mon
 
@@ -1465,8 +1486,14 @@ def mon_C15(rng, budget, tier):
         nums = [[(mu, sg if sg > 0 else st["beta"]) for mu, sg in t] for t in nums_of(teams)]
         if i % 3 == 0:   # players whose sigma would rise: small sigma, large tau
             nums = [[(mu, gen.logu(rng, 1e-3, 0.3) * st["beta"]) for mu, _ in t] for t in nums]
+        if i % 7 == 0:   # a player of sigma 0 beside team-mates of positive sigma: valid for every tau, 0 included
+            multi = [ti for ti, t in enumerate(nums) if len(t) >= 2]
+            if multi:
+                z = rng.choice(multi)
+                j = rng.randrange(len(nums[z]))
+                nums[z] = [(mu, 0.0 if jj == j else sg) for jj, (mu, sg) in enumerate(nums[z])]
         beta = st["beta"]
-        for t in [("I", 0), ("F", 0.0), ("F", 1e-9 * beta), ("F", beta / 50.0), ("F", 3.0 * beta)]:
+        for t in [("I", 0), ("F", 0.0), ("F", 1e-200 * beta), ("F", 1e-9 * beta), ("F", beta / 50.0), ("F", 3.0 * beta)]:
             for b in [OMIT, ("B", True), ("B", False)]:
                 case = {"kind": kind, "st": st, "nums": nums, "ranks": ranks, "scores": scores, "tau": t, "lim": b}
                 mon.case(case, True)
